@@ -6,7 +6,7 @@ from scenario import pedigree as PED, phasing as PH, vcf as V
 from props.C03 import components_by_search
 
 LEVEL = "exploration"
-LEVEL_TEXT = ("Deductive part (vcgen/z3, all inputs, over a line-sequence file model): write_changed_genotypes preserves earlier entries, writes the header once and exactly one row per change in order (contracts/phase_py.py). "
+LEVEL_TEXT = ("Deductive part (vcgen/z3, all inputs, over a line-sequence file model): write_changed_genotypes preserves earlier entries, writes the header once and exactly one row per change in order; ReadList.write appends exactly one line per read handed in, in order, attributed to the phase set (component + 1) of the read's first variant, with 1-based first/last positions (contracts/phase_py.py). "
               "Bounded stand-in (the file-model contracts of write_changed_genotypes / write_recombination_list / ReadList are planned deductive targets): whole "
               "`whatshap phase` runs on 2-3 chromosomes x 1-2 families (+ unrelated samples) with every combination of --output-read-list, --changed-genotype-list, "
               "--recombination-list, with and without --distrust-genotypes; the three lists are compared with expectations recomputed from the output VCF and from "
@@ -15,7 +15,7 @@ LEVEL_TEXT = ("Deductive part (vcgen/z3, all inputs, over a line-sequence file m
               "genotypes are trusted), each recombination lies between two variants of one phase set of a family member.")
 LEVEL_NOTE = "Seeded sampling. Trusted: independent VCF parser; wrappers substituted through module globals."
 TECHNIQUE = "bounded runtime contract on run_whatshap's list outputs against the output VCF and solver wrappers"
-D_MODULES = [("contracts.phase_py", ["write_changed_genotypes"])]
+D_MODULES = [("contracts.phase_py", ["write_changed_genotypes", "ReadList.write"])]
 EXPLANATION = LEVEL_TEXT
 TRUSTED_BASE = ["scenario generators", "runtime/phase_driver.py wrappers"]
 ASSUMPTIONS = ["reads are phased-VCF pseudo reads (no BAM)"]
